@@ -128,7 +128,7 @@ func generate(emit func(caseIn)) {
 		for _, m := range methods {
 			for i, ct := range contentTypes {
 				for j, b := range errDocs {
-					if !thorough && j == 2 && (i+st)%8 != 0 {
+					if !thorough && j == 2 && (i+st)%16 != 0 {
 						continue
 					}
 					c := base(m, st)
@@ -332,9 +332,10 @@ func generate(emit func(caseIn)) {
 	//     bodies (where keeping only 1 KiB of text is the specified behaviour).
 	smallSizes := []int{900, 1000, 1023, 1024, 1025, 1100, 2048, 4095, 4096, 4097, 5000}
 	hugeSizes := []int{65535, 65536, 65537, 70000}
-	errStatuses := []int{100, 301, 403, 404, 423, 500, 507, 599}
-	errMethods := []string{"Mkdir", "Stat", "PutCalendarObject", "SyncCollection", "GetAddressObject"}
+	errStatuses := []int{100, 301, 403, 423, 500, 507}
+	errMethods := []string{"Mkdir", "Stat", "SyncCollection"}
 	if thorough {
+		errStatuses = []int{100, 301, 403, 404, 423, 500, 507, 599}
 		errMethods = methods
 	}
 	xmlCTs := []*string{sp("application/xml"), sp("text/xml; charset=utf-8")}
@@ -430,6 +431,171 @@ func generate(emit func(caseIn)) {
 				if d == delivRealTransport && !realOK(&c.r) {
 					continue
 				}
+				emit(c)
+			}
+		}
+	}
+
+	// 6g. METADATA PER OBJECT: multi-status documents with several responses in which every
+	//     optional property is, independently per response, present (200 propstat, a value of
+	//     its own) / absent / in a 404 propstat.  All 2-response combinations for the object
+	//     lists and sync-collection, a sample for the collections (thorough: all), and random
+	//     3-4-response combinations.  The client must hand out, with each object, that object's
+	//     own values and zero values for what it lacks.
+	dates := []string{"Wed, 01 Jan 2020 10:00:00 GMT", "Thu, 02 Jan 2020 11:30:00 GMT", "Fri, 03 Jan 2020 12:45:10 GMT", "Sat, 04 Jan 2020 00:00:01 GMT"}
+	// state digit per optional property: 0 present, 1 absent, 2 in a 404 propstat
+	entry := func(href string, must []*node, opt []*node, states []int) *node {
+		ok := append([]*node{}, must...)
+		var missing []*node
+		for i, o := range opt {
+			switch states[i] {
+			case 0:
+				ok = append(ok, o)
+			case 2:
+				missing = append(missing, &node{ns: o.ns, local: o.local})
+			}
+		}
+		r := response(href, propstat(200, ok...))
+		if len(missing) > 0 {
+			r.kids = append(r.kids, propstat(404, missing...))
+		}
+		return r
+	}
+	digits := func(code, n int) []int {
+		out := make([]int, n)
+		for i := range out {
+			out[i] = code % 3
+			code /= 3
+		}
+		return out
+	}
+	objEntry := func(card bool, i, code int) *node {
+		opt := []*node{dt("getlastmodified", dates[i%len(dates)]), dt("getetag", fmt.Sprintf(`"tag-%d"`, i)), dt("getcontentlength", fmt.Sprint(100+i))}
+		if card {
+			return entry(fmt.Sprintf("/card/me/friends/%d.vcf", i), []*node{tx(nsCard, "address-data", vcardText)}, opt, digits(code, 3))
+		}
+		return entry(fmt.Sprintf("/cal/me/work/%d.ics", i), []*node{tx(nsCal, "calendar-data", icalText)}, opt, digits(code, 3))
+	}
+	collEntry := func(card bool, i, code int) *node {
+		if card {
+			opt := []*node{dt("displayname", fmt.Sprintf("Book %d", i)), tx(nsCard, "addressbook-description", fmt.Sprintf("people %d", i)),
+				tx(nsCard, "max-resource-size", fmt.Sprint(8000+i)),
+				el(nsCard, "supported-address-data", &node{ns: nsCard, local: "address-data-type", attrs: [][2]string{{"content-type", "text/vcard"}, {"version", fmt.Sprintf("%d.0", 3+i%2)}}})}
+			return entry(fmt.Sprintf("/card/me/b%d/", i), []*node{d("resourcetype", d("collection"), el(nsCard, "addressbook"))}, opt, digits(code, 4))
+		}
+		opt := []*node{dt("displayname", fmt.Sprintf("Cal %d", i)), tx(nsCal, "calendar-description", fmt.Sprintf("things %d", i)),
+			tx(nsCal, "max-resource-size", fmt.Sprint(4000+i)),
+			el(nsCal, "supported-calendar-component-set", &node{ns: nsCal, local: "comp", attrs: [][2]string{{"name", []string{"VEVENT", "VTODO", "VJOURNAL"}[i%3]}}})}
+		return entry(fmt.Sprintf("/cal/me/c%d/", i), []*node{d("resourcetype", d("collection"), el(nsCal, "calendar"))}, opt, digits(code, 4))
+	}
+	syncEntry := func(i, code int) *node {
+		opt := []*node{dt("getlastmodified", dates[i%len(dates)]), dt("getetag", fmt.Sprintf(`"s-%d"`, i))}
+		return entry(fmt.Sprintf("/card/me/friends/%d.vcf", i), nil, opt, digits(code, 2))
+	}
+	metaCase := func(m string, rs ...*node) {
+		c := base(m, 207)
+		c.r.ct = sp("application/xml")
+		c.r.body = multistatus(rs...).render()
+		emit(c)
+	}
+	for a := 0; a < 27; a++ {
+		for b := 0; b < 27; b++ {
+			metaCase("QueryCalendar", objEntry(false, 0, a), objEntry(false, 1, b))
+			metaCase("QueryAddressBook", objEntry(true, 0, a), objEntry(true, 1, b))
+			if thorough || (a+b)%5 == 0 {
+				metaCase("MultiGetCalendar", objEntry(false, 0, a), objEntry(false, 1, b))
+				metaCase("MultiGetAddressBook", objEntry(true, 0, a), objEntry(true, 1, b))
+			}
+		}
+	}
+	for a := 0; a < 9; a++ {
+		for b := 0; b < 9; b++ {
+			metaCase("SyncCollection", syncEntry(0, a), syncEntry(1, b))
+			for c := 0; c < 9; c++ {
+				if thorough || (a+b+c)%3 == 0 {
+					metaCase("SyncCollection", syncEntry(0, a), syncEntry(1, b), response("/card/me/friends/gone.vcf", status(404)), syncEntry(2, c))
+				}
+			}
+		}
+	}
+	for a := 0; a < 81; a++ {
+		for b := 0; b < 81; b++ {
+			if thorough || (a*7+b)%5 == 0 {
+				metaCase("FindCalendars", collEntry(false, 0, a), collEntry(false, 1, b))
+				metaCase("FindAddressBooks", collEntry(true, 0, a), collEntry(true, 1, b))
+			}
+		}
+	}
+	{
+		mrng := hx.NewRand(hx.Seed() + 77)
+		nMeta := 400
+		if thorough {
+			nMeta = 6000
+		}
+		for i := 0; i < nMeta; i++ {
+			n := 3 + mrng.Intn(2)
+			var cal, card, ccal, ccard, sy []*node
+			for k := 0; k < n; k++ {
+				cal = append(cal, objEntry(false, k, mrng.Intn(27)))
+				card = append(card, objEntry(true, k, mrng.Intn(27)))
+				ccal = append(ccal, collEntry(false, k, mrng.Intn(81)))
+				ccard = append(ccard, collEntry(true, k, mrng.Intn(81)))
+				sy = append(sy, syncEntry(k, mrng.Intn(9)))
+			}
+			metaCase([]string{"QueryCalendar", "MultiGetCalendar"}[i%2], cal...)
+			metaCase([]string{"QueryAddressBook", "MultiGetAddressBook"}[i%2], card...)
+			metaCase("FindCalendars", ccal...)
+			metaCase("FindAddressBooks", ccard...)
+			metaCase("SyncCollection", sy...)
+		}
+	}
+
+	// 6f. BODIES THAT NEVER END (the bytes, then a reader that blocks / trickles blanks for ever),
+	//     scripted where the code has no reason to read past the bytes: a 2xx answer to a method
+	//     that does not look at the body; a complete multi-status (207) or DAV:error document
+	//     (XML error) — the XML decoder stops at the end of the first element; an error body of a
+	//     type that is not looked at; a text error body longer than the 1 KiB that are kept, or
+	//     trickling (the limit is reached).  Not scripted: incomplete XML, short text followed by a
+	//     blocking reader, iCalendar/vCard bodies — there reading on is what the code must do.
+	//     The call has to return within the watchdog's patience; (hang) is a failing input.
+	longText := strings.Repeat("the server is unhappy. ", 100)
+	for _, m := range methods {
+		mi := minfo[m]
+		for _, d := range []int{delivThenBlocks, delivThenTrickles} {
+			var cs []caseIn
+			switch {
+			case mi.ms:
+				cs = append(cs, okCase(m))
+			case m == "GetCalendarObject" || m == "GetAddressObject":
+			default:
+				for _, st := range []int{200, 201, 204} {
+					c := okCase(m)
+					c.r.status = st
+					c.r.body = "left over"
+					cs = append(cs, c)
+				}
+			}
+			for _, st := range []int{301, 403, 404, 500, 507} {
+				c := base(m, st)
+				c.r.ct, c.r.body = sp("application/json"), `{"error":"x"}`
+				cs = append(cs, c)
+				c = base(m, st)
+				c.r.ct, c.r.body = sp("application/xml"), errXML
+				cs = append(cs, c)
+				c = base(m, st)
+				c.r.ct, c.r.body = sp("text/plain"), longText
+				cs = append(cs, c)
+				if d == delivThenTrickles {
+					c = base(m, st)
+					c.r.ct, c.r.body = sp("text/html"), "short"
+					cs = append(cs, c)
+					c = base(m, st)
+					c.r.body = ""
+					cs = append(cs, c)
+				}
+			}
+			for _, c := range cs {
+				c.r.deliv = d
 				emit(c)
 			}
 		}
